@@ -6,10 +6,11 @@
 (* event stream, the routing table, the ban list and the local record.                             *)
 (* STRICT: the TALK part is additionally compared with Talk.tla step by step.                      *)
 EXTENDS Talk, NodesExchange, TLC, Json, IOUtils, SequencesExt, FiniteSetsExt
+LK == INSTANCE Lookup
 CONSTANT STRICT
 Rec == ndJsonDeserialize(IOEnv.TRACE)
-VARIABLES l, t, m, viols, sr
-vars == <<l, t, m, viols, sr>>
+VARIABLES l, t, m, viols, sr, lq       \* lq: the co-simulated lookup (strict pass; Lookup.tla over Query.tla)
+vars == <<l, t, m, viols, sr, lq>>
 
 Get(r, f, d) == IF f \in DOMAIN r THEN r[f] ELSE d
 SeqSet(q) == {q[i] : i \in 1..Len(q)}
@@ -39,7 +40,7 @@ M0 == [cfg |-> [mode |-> "ip4", filter |-> "all", maxnodes |-> 16, vote_min |-> 
        offrecs |-> {},      \* the records they were offered with
        netrecs |-> {},      \* records seen in NODES responses
        xs |-> <<>>]         \* FINDNODE exchanges: [rid, to, x] with x the request state of NodesExchange.tla, fed with the observed packets
-Init == l = 1 /\ t = T0 /\ m = M0 /\ viols = <<>> /\ sr = [t |-> T0, ret |-> "ok", out |-> <<>>]
+Init == l = 1 /\ t = T0 /\ m = M0 /\ viols = <<>> /\ sr = [t |-> T0, ret |-> "ok", out |-> <<>>] /\ lq = [l |-> LK!L0, ok |-> TRUE, ranks |-> <<>>]
 
 \* ------------------------------------------------------------------ shapes of records  "<peer>:<seq>:<shape>"
 PeerNames == {"p" \o ToString(i) : i \in 1..40}
@@ -259,6 +260,50 @@ LkViol(mm, m2, e) ==
                  \cup (IF ~c.mixed /\ Len(d.res) < c.k /\ k2.aged - c.t0 < mm.cfg.qto /\ \E p \in learnt : p \notin contacted THEN {"C10.Incomplete"} ELSE {})
              : x \in 1..Len(dn)}
 
+\* ------------------------------------------------------------------ strict: the service's lookup is the query of Query.tla driven by Lookup.tla
+\* (only a lookup that runs alone from start to callback is co-simulated; `spoiled` otherwise)
+NameOfRank(ranks, r) == IF \E n \in DOMAIN ranks : ranks[n] = r THEN CHOOSE n \in DOMAIN ranks : ranks[n] = r ELSE "?"
+LkStrict(cur, mm, m2, e) ==
+  LET op == e.op  obs == e.obs  ll == cur.l
+      now == m2.lk.aged
+      \* lookup requests of this step, in order
+      sentTo == LET R == SetToSeq(Hin(e, "Request")) IN
+                SelectSeq([i \in 1..Len(R) |-> obs.hin[R[i]]], LAMBDA x : x.body.t = "findnode")
+      sentNames == [i \in 1..Len(sentTo) |-> sentTo[i].to]
+      ci == IF \E i \in 1..Len(mm.lk.calls) : mm.lk.calls[i].call = ll.call THEN CHOOSE i \in 1..Len(mm.lk.calls) : mm.lk.calls[i].call = ll.call ELSE 0
+      isMine(rid) == \E j \in 1..Len(mm.lk.lreqs) : mm.lk.lreqs[j].rid = rid /\ mm.lk.lreqs[j].c = ci /\ ci # 0     \* (requests of earlier lookups are not this lookup's)
+      toOf(rid) == mm.lk.lreqs[CHOOSE j \in 1..Len(mm.lk.lreqs) : mm.lk.lreqs[j].rid = rid].to
+      complete == ((op.o = "honest_reply") \/ (op.o = "response_in" /\ op.body.t = "nodes" /\ op.body.total <= 1)) /\ ~Unres(e)
+      recsOf == IF op.o = "honest_reply" THEN LET RECURSIVE Fl(_) Fl(q) == IF q = <<>> THEN <<>> ELSE Head(q).recs \o Fl(Tail(q)) IN Fl(op.packets)
+                ELSE IF op.o = "response_in" /\ op.body.t = "nodes" THEN op.body.recs ELSE <<>>
+      news(p) == LET ok == SelectSeq(recsOf, LAMBDA r : RecOwner(r) \notin {"L", "?", p} /\ Contactable(mm.cfg.mode, ShapeOf(r)) /\ RecOwner(r) \in DOMAIN cur.ranks)
+                 IN [i \in 1..Len(ok) |-> <<cur.ranks[RecOwner(ok[i])], HasV4(ok[i])>>]
+      Check(res, call) ==
+        /\ [i \in 1..Len(res.contacts) |-> NameOfRank(cur.ranks, res.contacts[i])] = sentNames
+        /\ IF res.fin THEN \E x \in 1..Len(obs.done) : obs.done[x].call = call /\ obs.done[x].ok
+                                                      /\ [y \in 1..Len(obs.done[x].res) |-> RecOwner(obs.done[x].res[y])] = [y \in 1..Len(res.result) |-> NameOfRank(cur.ranks, res.result[y])]
+           ELSE ~\E x \in 1..Len(obs.done) : obs.done[x].call = call
+  IN
+  IF op.o = "lookup" /\ "call" \in DOMAIN op
+  THEN IF ll.on \/ ll.spoiled \/ \E i \in 1..Len(mm.lk.calls) : mm.lk.calls[i].n = 0
+       THEN [l |-> [ll EXCEPT !.on = FALSE, !.spoiled = TRUE], ok |-> TRUE, ranks |-> cur.ranks]
+       ELSE LET rk == op.ranks
+                cands == [i \in 1..Len(op.closest) |-> <<rk[op.closest[i]], HasV4(Row(mm.table, op.closest[i])[2])>>]
+                cfg == [par |-> mm.cfg.par, nr |-> op.k, pto |-> mm.cfg.pto, pred |-> op.pred]
+                st == LK!Start(cfg, cands, now, mm.cfg.qto, op.call)
+                res == IF Len(cands) = 0 THEN [l |-> [st EXCEPT !.on = FALSE], contacts |-> <<>>, fin |-> TRUE, result |-> <<>>] ELSE LK!Poll(st, now)
+            IN [l |-> res.l, ranks |-> rk,
+                ok |-> /\ [i \in 1..Len(res.contacts) |-> NameOfRank(rk, res.contacts[i])] = sentNames
+                       /\ (res.fin => \E x \in 1..Len(obs.done) : obs.done[x].call = op.call)]
+  ELSE IF ~ll.on THEN [cur EXCEPT !.ok = TRUE]
+  ELSE LET l1 == IF complete /\ isMine(op.req) /\ op.req \notin mm.answered /\ toOf(op.req) \in DOMAIN cur.ranks
+                 THEN LK!Success(ll, cur.ranks[toOf(op.req)], news(toOf(op.req)))
+                 ELSE IF op.o = "fail" /\ ~Unres(e) /\ isMine(op.req) /\ op.req \notin mm.answered /\ toOf(op.req) \in DOMAIN cur.ranks
+                 THEN LK!Failure(ll, cur.ranks[toOf(op.req)])
+                 ELSE ll
+           res == IF op.o = "age" THEN LK!Poll2(l1, now) ELSE LK!Poll(l1, now)
+       IN [l |-> res.l, ranks |-> cur.ranks, ok |-> Check(res, ll.call)]
+
 MonViol(mm, m2, e) == LkViol(mm, m2, e) \cup C20Viol(mm, m2, e) \cup C14Viol(mm, e) \cup C11Viol(mm, m2, e) \cup C12Viol(mm, m2, e) \cup C17Viol(mm, m2, e)
 
 Next ==
@@ -269,7 +314,7 @@ Next ==
                                        maxnodes |-> Get(e.op, "maxnodes", 16), vote_min |-> Get(e.op, "vote_min", 2), vote_ms |-> 1000 * Get(e.op, "vote_dur", 3600),
                                        par |-> Get(e.op, "par", 3), pto |-> 1000 * Get(e.op, "peer_timeout", 3600), qto |-> 1000 * Get(e.op, "query_timeout", 3600)],
                              !.local = e.obs.local]
-          /\ t' = T0 /\ UNCHANGED <<viols, sr>>
+          /\ t' = T0 /\ UNCHANGED <<viols, sr>> /\ lq' = [l |-> LK!L0, ok |-> TRUE, ranks |-> <<>>]
      ELSE /\ m' = MonStep(m, e)
           /\ viols' = viols \o SetToSeq({<<l, f>> : f \in MonViol(m, m', e)})
           /\ IF STRICT /\ (e.op.o \in {"talk_respond", "talk_drop", "shutdown"} \/ (e.op.o = "request_in" /\ e.op.body.t = "talk"))
@@ -278,6 +323,7 @@ Next ==
                   /\ (e.op.o \in {"talk_respond", "talk_drop"} => sr'.ret = Get(e.op, "ret", "unresolved"))
                   /\ Len(sr'.out) = Cardinality(TalkResp(e))
              ELSE UNCHANGED <<t, sr>>
+          /\ IF STRICT THEN lq' = LkStrict(lq, m, m', e) /\ lq'.ok ELSE UNCHANGED lq
 Spec == Init /\ [][Next]_vars
 Report == l <= Len(Rec) \/ PrintT(<<"VIOLS", ToJson(viols)>>)
 Accepted == IF TLCGet("stats").diameter = Len(Rec) + 1 THEN TRUE
